@@ -176,41 +176,57 @@ def gen_outcome(rng, p_err=0.3):
     return {"ok": rng.choice(TOKENS)}
 
 
-def gen_stmts(rng, depth, budget, slots):
+DEFAULT_WEIGHTS = {"step": 30, "wait": 10, "cbnew": 10, "cbres": 10, "invoke": 8, "wfc": 12, "child": 12, "log": 8}
+FOCUS = {
+    "C14": {"step": 8, "wait": 4, "cbnew": 25, "cbres": 30, "invoke": 20, "wfc": 3, "child": 8, "log": 6},
+    "C13": {"step": 8, "wait": 6, "cbnew": 2, "cbres": 2, "invoke": 3, "wfc": 50, "child": 10, "log": 4},
+    "C12": {"step": 55, "wait": 6, "cbnew": 2, "cbres": 2, "invoke": 3, "wfc": 6, "child": 12, "log": 4},
+    "C04": {"step": 55, "wait": 6, "cbnew": 2, "cbres": 2, "invoke": 3, "wfc": 6, "child": 12, "log": 4},
+    "C16": {"step": 20, "wait": 8, "cbnew": 4, "cbres": 4, "invoke": 6, "wfc": 8, "child": 40, "log": 4},
+    "C17": {"step": 25, "wait": 10, "cbnew": 5, "cbres": 5, "invoke": 5, "wfc": 8, "child": 12, "log": 40},
+}
+
+
+def gen_stmts(rng, depth, budget, slots, weights=None, amo_p=0.35, large_p=0.3):
+    weights = weights or DEFAULT_WEIGHTS
     out = []
     n = rng.randrange(1, 5)
+    ops = list(weights)
     for _ in range(n):
         if budget[0] <= 0:
             break
         budget[0] -= 1
-        r = rng.random()
-        if r < 0.30:
+        op = rng.choices(ops, [weights[o] for o in ops])[0]
+        if op == "cbres" and not slots:
+            op = "cbnew"
+        if op == "child" and depth <= 0:
+            op = "step"
+        if op == "step":
             k = rng.randrange(1, 4)
             body = [gen_outcome(rng, 0.45) for _ in range(k)]
-            out.append({"op": "step", "body": body, "amo": rng.random() < 0.35,
+            out.append({"op": "step", "body": body, "amo": rng.random() < amo_p,
                         "retry": {"max": rng.choice([1, 2, 3, 4]), "delays": [rng.choice([0, 1, 3]) for _ in range(rng.randrange(0, 3))],
                                   "noretry": rng.choice([[], [], ["KeyError"]])},
                         "catch": rng.random() < 0.6})
-        elif r < 0.40:
+        elif op == "wait":
             out.append({"op": "wait", "secs": rng.choice([1, 2, 10])})
-        elif r < 0.50:
+        elif op == "cbnew":
             s = len(slots)
             slots.append(s)
             out.append({"op": "cbnew", "slot": s})
             if rng.random() < 0.5:
                 out.append({"op": "log", "msg": f"between-{s}"})
-        elif r < 0.60 and slots:
+        elif op == "cbres":
             out.append({"op": "cbres", "slot": rng.choice(slots), "catch": rng.random() < 0.6})
-        elif r < 0.68:
+        elif op == "invoke":
             out.append({"op": "invoke", "payload": rng.choice(["None", "i5", "t", "f1", "s", "lst", "d", "e", "z"]), "catch": rng.random() < 0.6})
-        elif r < 0.80:
+        elif op == "wfc":
             k = rng.randrange(1, 4)
             out.append({"op": "wfc", "init": rng.choice(TOKENS), "check": [gen_outcome(rng, 0.2) for _ in range(k)],
                         "decide": [rng.choice([None, 0, 1, 2]) for _ in range(k - 1)] + [None], "catch": rng.random() < 0.6})
-        elif r < 0.92 and depth > 0:
-            body = gen_stmts(rng, depth - 1, budget, list(slots))
-            large = rng.random() < 0.3
-            if large:
+        elif op == "child":
+            body = gen_stmts(rng, depth - 1, budget, list(slots), weights, amo_p, large_p)
+            if rng.random() < large_p:
                 body.append({"op": "pad", "n": 260})
             out.append({"op": "child", "body": body, "limit": 200, "summary": rng.choice(["", "SUMMARY"]), "catch": rng.random() < 0.6})
         else:
@@ -220,12 +236,36 @@ def gen_stmts(rng, depth, budget, slots):
     return out
 
 
-def gen_script(rng):
-    return gen_stmts(rng, 2, [rng.choice([3, 5, 8, 12])], [])
+def gen_script(rng, focus=None):
+    w = FOCUS.get(focus)
+    return gen_stmts(rng, 2, [rng.choice([3, 5, 8, 12])], [], w, amo_p=0.7 if focus == "C04" else 0.35, large_p=0.6 if focus == "C16" else 0.3)
 
 
-def gen_plan(rng, inv_index, crash_p, fault_p):
+def static_positions(script):
+    """(pos, op) of every counter-consuming statement."""
+    out = []
+
+    def walk(stmts, ctx):
+        n = 0
+        for st in stmts:
+            if st["op"] in ("step", "wait", "cbnew", "invoke", "wfc", "child"):
+                n += 1
+                out.append((ctx + [n], st["op"]))
+                if st["op"] == "child":
+                    walk(st["body"], ctx + [n])
+    walk(script, [])
+    return out
+
+
+def gen_plan(rng, inv_index, crash_p, fault_p, script=None):
     plan = {"imm": [], "page_size": rng.choice([None, None, 1, 2, 3])}
+    if script is not None and rng.random() < 0.25:
+        for pos, op in static_positions(script):
+            if op in ("wait", "invoke", "cbnew") and rng.random() < 0.4:
+                o = gen_outcome_event(rng)
+                if op == "wait":
+                    o = {"k": "succeeded", "v": None}
+                plan["imm"].append([pos, o])
     if rng.random() < crash_p:
         plan["crash_tick"] = rng.randrange(0, 10)
     elif rng.random() < fault_p:
@@ -268,7 +308,7 @@ def run_execution(script, seed, crash_p=0.25, fault_p=0.1, max_inv=40, limits=No
                 break
             plan = dict(plans[k])
         else:
-            plan = gen_plan(rng, k, crash_p if k < 8 else 0.0, fault_p if k < 8 else 0.0)
+            plan = gen_plan(rng, k, crash_p if k < 8 else 0.0, fault_p if k < 8 else 0.0, script)
         recorded_plans.append({kk: v for kk, v in plan.items() if kk != "fail_exc"})
         if plan.get("fail_sync_call") is not None:
             plan["fail_exc"] = make_fail_exc(plan.get("fail_kind", "retriable"))
